@@ -123,6 +123,10 @@ def _confirm_and_minimise(args):
     for _ in range(3):
         if not fails_exact(case):
             return ('flaky', rel, d, case)
+    if d.get('min_case_extra'):
+        # cheaper judging while minimising (e.g. a short CPU limit for hangs)
+        case = case.with_()
+        case.extra = dict(case.extra or {}, **d['min_case_extra'])
     cfgd = shrink.min_cfg(case.cfgd, lambda dd: fails_class(case.with_(cfgd=dd)), max_tests=150)
     c2 = case.with_(cfgd=cfgd)
     if do_src and len(case.src) < (do_src if (isinstance(do_src, int) and do_src > 1) else 40000):
